@@ -376,15 +376,9 @@ func (g *Gen) havocLoc(env *Env, le Expr) error {
 		if x.Fun == "all" && len(x.Args) == 1 {
 			// all(Type.field): the field of every object
 			if f, ok := x.Args[0].(*EField); ok {
-				if id, ok := f.X.(*EIdent); ok {
-					t, _ := g.specType(id.Name)
-					if t != nil {
-						obj, path, _ := types.LookupFieldOrMethod(t, true, g.fn.Pkg.Pkg, f.Name)
-						if obj != nil && len(path) == 1 {
-							g.heapHavoc(g.cur, g.fieldHeap(t, path[0]))
-							return nil
-						}
-					}
+				if h, ok := g.allFieldHeap(f); ok {
+					g.heapHavoc(g.cur, h)
+					return nil
 				}
 			}
 			return fmt.Errorf("bad all(...) location")
